@@ -2807,6 +2807,11 @@ void MessageMap::invalidateCache(Message* message) {
 void MessageMap::addPollMessage(bool toFront, Message* message) {
   if (message != nullptr && message->getPollPriority() > 0) {
     lock();
+    unsigned int minPollOrder = g_lastPollOrder + (toFront ? 0 : (unsigned int)message->m_pollPriority);
+    if (message->m_pollOrder < minPollOrder) {
+      // ensure a message added later is not preferred until it reached the poll order of all others
+      message->m_pollOrder = minPollOrder;
+    }
     message->m_lastPollTime = toFront ? 0 : m_pollMessages.size();
     m_pollMessages.push(message);
     unlock();
